@@ -114,8 +114,8 @@ theorem scaled_sub {env : Env} {s : PyState} (hI : Inv env s) {a : Nat} {p base 
   | _ :: _ :: _, h' => simp at h'
 
 /-- every set-up keeps the windows of wrapped assets (the structured asset restores them) -/
-theorem setupAsset_inv (rd : Bool) (env : Env) (s : PyState) (a : Nat) (arg : Option Nat) (hI : Inv env s) :
-    Inv env (setupAsset rd env s a arg).1 := by
+theorem setupAsset_inv (v : Version) (env : Env) (s : PyState) (a : Nat) (arg : Option Nat) (hI : Inv env s) :
+    Inv env (setupAsset v env s a arg).1 := by
   cases h : env.asset a with
   | plain p =>
     simp only [setupAsset, h]
@@ -123,7 +123,8 @@ theorem setupAsset_inv (rd : Bool) (env : Env) (s : PyState) (a : Nat) (arg : Op
   | scaled p base =>
     obtain ⟨x, hx, hx1, hx2⟩ := scaled_sub hI h
     simp only [setupAsset, h, hx, List.headD_cons]
-    rcases hbp : buildPlain rd s.grids x.grid x.start x.stop base.freq base.wacc arg with ⟨G, bptr, r⟩
+    rcases hbp : buildPlain v.rederive s.grids x.grid x.start x.stop base.freq base.wacc
+        (match arg with | some g => some g | none => if v.scaledOwnGrid = true then (s.assets a).grid else none) with ⟨G, bptr, r⟩
     cases r with
     | error e => exact inv_upd hI a _ _ (by simp [h, Asset.subs, win, pwin, hx1, hx2])
     | ok u =>
@@ -140,17 +141,17 @@ theorem setupAsset_inv (rd : Bool) (env : Env) (s : PyState) (a : Nat) (arg : Op
       cases hg : (s.assets a).grid with
       | none => exact hI
       | some g =>
-        obtain ⟨G', sub', he, hw⟩ := structuredBody_eq rd s.grids g p inner _ hIa
+        obtain ⟨G', sub', he, hw⟩ := structuredBody_eq v.rederive s.grids g p inner _ hIa
         simp only [he]
         exact inv_upd hI a _ _ (by simpa [h, Asset.subs, hw] using hIa)
     | some g =>
-      obtain ⟨G', sub', he, hw⟩ := structuredBody_eq rd (writeSlots s.grids g p.start p.stop p.freq p.wacc) g p inner _ hIa
+      obtain ⟨G', sub', he, hw⟩ := structuredBody_eq v.rederive (writeSlots s.grids g p.start p.stop p.freq p.wacc) g p inner _ hIa
       simp only [he]
       exact inv_upd hI a _ _ (by simpa [h, Asset.subs, hw] using hIa)
 
-/-- a set-up WITH grid argument reads the asset's own data, whatever was set up before -/
-theorem setupAsset_arg (rd : Bool) (env : Env) (s : PyState) (a g : Nat) (hI : Inv env s) :
-    (setupAsset rd env s a (some g)).2 = .ok (pureAsset (env.asset a) g) := by
+/-- a set-up WITH grid argument reads the asset's own data, whatever was set up before (every code version) -/
+theorem setupAsset_arg (v : Version) (env : Env) (s : PyState) (a g : Nat) (hI : Inv env s) :
+    (setupAsset v env s a (some g)).2 = .ok (pureAsset (env.asset a) g) := by
   cases h : env.asset a with
   | plain p => simp [setupAsset, h, buildPlain_arg, pureAsset, Except.map]
   | scaled p base =>
@@ -160,94 +161,183 @@ theorem setupAsset_arg (rd : Bool) (env : Env) (s : PyState) (a g : Nat) (hI : I
     have hIa := hI a
     rw [h] at hIa
     simp only [Asset.subs] at hIa
-    obtain ⟨G', sub', he, _⟩ := structuredBody_eq rd (writeSlots s.grids g p.start p.stop p.freq p.wacc) g p inner _ hIa
+    obtain ⟨G', sub', he, _⟩ := structuredBody_eq v.rederive (writeSlots s.grids g p.start p.stop p.freq p.wacc) g p inner _ hIa
     simp only [setupAsset, h, he]
 
-/-- for a `ScaledAsset` the wrapped base asset sits on the same grid object as the wrapper -/
-def ScaledSynced (env : Env) (s : PyState) (a : Nat) : Prop :=
-  match env.asset a with
-  | .scaled _ b => ((s.assets a).sub.headD (subInit b)).grid = (s.assets a).grid
-  | _ => True
-
-/-- a set-up WITHOUT grid argument (current code: re-derives) reads the asset's own data on the grid the asset
-    itself was put on -/
-theorem setupAsset_noarg (env : Env) (s : PyState) (a : Nat) (hI : Inv env s) (hS : ScaledSynced env s a) :
-    (setupAsset true env s a none).2 =
-      match (s.assets a).grid with
+/-- a set-up WITHOUT grid argument (current code) reads the asset's own data on the grid the asset itself was put on
+    (a scaled asset that never saw a grid: the grid of its base asset) -/
+theorem setupAsset_noarg (env : Env) (s : PyState) (a : Nat) (hI : Inv env s) :
+    (setupAsset current env s a none).2 =
+      match ownGrid env (ownPtrs s) a with
       | some g => .ok (pureAsset (env.asset a) g)
       | none => .error .noGrid := by
   cases h : env.asset a with
   | plain p =>
     cases hg : (s.assets a).grid with
-    | none => simp [setupAsset, h, hg, buildPlain_none_none, Except.map]
-    | some g => simp [setupAsset, h, hg, buildPlain_rederive_some, pureAsset, Except.map]
+    | none => simp [setupAsset, current, h, hg, buildPlain_none_none, Except.map, ownGrid, ownPtrs]
+    | some g => simp [setupAsset, current, h, hg, buildPlain_rederive_some, pureAsset, Except.map, ownGrid, ownPtrs]
   | scaled p base =>
     obtain ⟨x, hx, hx1, hx2⟩ := scaled_sub hI h
-    simp only [ScaledSynced, h, hx, List.headD_cons] at hS
     cases hg : (s.assets a).grid with
-    | none =>
-      rw [hg] at hS
-      simp [setupAsset, h, hx, hS, buildPlain_none_none]
     | some g =>
-      rw [hg] at hS
-      simp [setupAsset, h, hx, hS, buildPlain_rederive_some, pureAsset, readSlots_writeSlots, hx1, hx2]
+      simp [setupAsset, current, h, hx, hg, buildPlain_arg, pureAsset, readSlots_writeSlots, hx1, hx2, ownGrid, ownPtrs]
+    | none =>
+      cases hb : x.grid with
+      | none => simp [setupAsset, current, h, hx, hg, hb, buildPlain_none_none, ownGrid, ownPtrs]
+      | some g =>
+        simp [setupAsset, current, h, hx, hg, hb, buildPlain_rederive_some, pureAsset, readSlots_writeSlots, hx1, hx2,
+          ownGrid, ownPtrs]
   | structured p inner =>
     have hIa := hI a
     rw [h] at hIa
     simp only [Asset.subs] at hIa
     cases hg : (s.assets a).grid with
-    | none => simp [setupAsset, h, hg]
+    | none => simp [setupAsset, h, hg, ownGrid, ownPtrs]
     | some g =>
       obtain ⟨G', sub', he, _⟩ := structuredBody_eq true s.grids g p inner _ hIa
-      simp only [setupAsset, h, hg, he]
+      simp only [setupAsset, current, h, hg, he, ownGrid, ownPtrs]
 
 /-- the portfolio loop: every asset reads its own data; `Inv` is kept -/
-theorem setupAll_eq (rd : Bool) (env : Env) (g : Nat) :
+theorem setupAll_eq (v : Version) (env : Env) (g : Nat) :
     ∀ (l : List Nat) (s : PyState), Inv env s →
-      (setupAll rd env g s l).2 = .ok (l.flatMap fun a => pureAsset (env.asset a) g) ∧ Inv env (setupAll rd env g s l).1
+      (setupAll v env g s l).2 = .ok (l.flatMap fun a => pureAsset (env.asset a) g) ∧ Inv env (setupAll v env g s l).1
   | [], s, hI => ⟨rfl, hI⟩
   | a :: rest, s, hI => by
-    have h1 := setupAsset_arg rd env s a g hI
-    have h2 := setupAsset_inv rd env s a (some g) hI
-    rcases hsa : setupAsset rd env s a (some g) with ⟨s1, r1⟩
+    have h1 := setupAsset_arg v env s a g hI
+    have h2 := setupAsset_inv v env s a (some g) hI
+    rcases hsa : setupAsset v env s a (some g) with ⟨s1, r1⟩
     rw [hsa] at h1 h2
     simp only at h1 h2
     subst h1
-    have ih := setupAll_eq rd env g rest s1 h2
-    rcases hsr : setupAll rd env g s1 rest with ⟨s2, r2⟩
+    have ih := setupAll_eq v env g rest s1 h2
+    rcases hsr : setupAll v env g s1 rest with ⟨s2, r2⟩
     rw [hsr] at ih
     simp only at ih
     obtain ⟨ih1, ih2⟩ := ih
     subst ih1
     simp [setupAll, hsa, hsr, ih2]
 
-theorem setupPortfolioSt_eq (rd : Bool) (env : Env) (s : PyState) (arg : Option Nat) (hI : Inv env s) :
-    (setupPortfolioSt rd env s arg).2 = setupPure env (ownPtrs s) (.setupPortfolio arg)
-      ∧ Inv env (setupPortfolioSt rd env s arg).1 := by
+theorem setupPortfolioSt_eq (v : Version) (env : Env) (s : PyState) (arg : Option Nat) (hI : Inv env s) :
+    (setupPortfolioSt v env s arg).2 = setupPure env (ownPtrs s) (.setupPortfolio arg)
+      ∧ Inv env (setupPortfolioSt v env s arg).1 := by
   cases arg with
   | some g =>
-    have := setupAll_eq rd env g (List.range env.length) { s with pf := some g } hI
+    have := setupAll_eq v env g (List.range env.length) { s with pf := some g } hI
     simpa [setupPortfolioSt, setupPure] using this
   | none =>
     cases hp : s.pf with
     | none => simp [setupPortfolioSt, setupPure, ownPtrs, hp]; exact hI
     | some g =>
-      have := setupAll_eq rd env g (List.range env.length) s hI
+      have := setupAll_eq v env g (List.range env.length) s hI
       simpa [setupPortfolioSt, setupPure, ownPtrs, hp] using this
+
+/-- the interval loop of a split set-up -/
+theorem setupIntervals_eq (v : Version) (env : Env) :
+    ∀ (tmp : List Nat) (s : PyState), Inv env s →
+      (setupIntervals v env s tmp).2 = .ok (tmp.flatMap fun t => (List.range env.length).flatMap fun a => pureAsset (env.asset a) t)
+        ∧ Inv env (setupIntervals v env s tmp).1
+  | [], s, hI => ⟨rfl, hI⟩
+  | t :: ts, s, hI => by
+    have h0 := setupAll_eq v env t (List.range env.length) { s with pf := some t } hI
+    rcases hsa : setupAll v env t { s with pf := some t } (List.range env.length) with ⟨s1, r1⟩
+    rw [hsa] at h0
+    simp only at h0
+    obtain ⟨h1, h2⟩ := h0
+    subst h1
+    have ih := setupIntervals_eq v env ts s1 h2
+    rcases hsr : setupIntervals v env s1 ts with ⟨s2, r2⟩
+    rw [hsr] at ih
+    simp only at ih
+    obtain ⟨ih1, ih2⟩ := ih
+    subst ih1
+    simp [setupIntervals, hsa, hsr, ih2]
+
+theorem setTimegridSt_inv (env : Env) (s : PyState) (a g : Nat) (hI : Inv env s) : Inv env (setTimegridSt env s a g) := by
+  intro i
+  by_cases hi : i = a
+  · subst hi; simpa [setTimegridSt] using hI i
+  · simpa [setTimegridSt, hi] using hI i
+
+theorem restoreTop_inv (env : Env) (g : Nat) : ∀ (l : List Nat) (s : PyState), Inv env s → Inv env (restoreTop env g s l)
+  | [], _, hI => hI
+  | a :: rest, s, hI => restoreTop_inv env g rest _ (setTimegridSt_inv env s a g hI)
+
+theorem map_win_set : ∀ (l : List SubSt) (i : Nat) (b : SubSt), l[i]? = some b → ∀ (ptr : Option Nat),
+    (l.set i { b with grid := ptr }).map win = l.map win
+  | [], _, _, h, _ => by simp at h
+  | x :: xs, 0, b, h, ptr => by
+    simp only [List.getElem?_cons_zero, Option.some.injEq] at h
+    subst h
+    simp [win]
+  | x :: xs, i + 1, b, h, ptr => by
+    simp only [List.getElem?_cons_succ] at h
+    simp [map_win_set xs i b h ptr]
+
+theorem win_of_get {l : List SubSt} {m : List Params} (h : l.map win = m.map pwin) {i : Nat} {b : SubSt} {q : Params}
+    (hb : l[i]? = some b) (hq : m[i]? = some q) : b.start = q.start ∧ b.stop = q.stop := by
+  have := congrArg (fun z => z[i]?) h
+  simp only [List.getElem?_map, hb, hq, Option.map_some, Option.some.injEq, win, pwin, Prod.mk.injEq] at this
+  exact this
+
+theorem get_none_of_win {l : List SubSt} {m : List Params} (h : l.map win = m.map pwin) {i : Nat}
+    (hb : l[i]? = none) : m[i]? = none := by
+  have := congrArg (fun z => z[i]?) h
+  simp only [List.getElem?_map, hb, Option.map_none] at this
+  cases hm : m[i]? with
+  | none => rfl
+  | some q => rw [hm] at this; simp at this
+
+theorem setupSubSt_inv (v : Version) (env : Env) (s : PyState) (a i : Nat) (arg : Option Nat) (hI : Inv env s) :
+    Inv env (setupSubSt v env s a i arg).1 := by
+  simp only [setupSubSt]
+  cases hb : (s.assets a).sub[i]? with
+  | none => exact hI
+  | some b =>
+    cases hq : (env.asset a).subs[i]? with
+    | none => exact hI
+    | some q =>
+      simp only
+      rcases hbp : buildPlain v.rederive s.grids b.grid b.start b.stop q.freq q.wacc arg with ⟨G, ptr, r⟩
+      exact inv_upd hI a _ _ (by simpa [map_win_set _ i b hb ptr] using hI a)
+
+/-- direct set-up of a wrapped asset: reads the wrapped asset's own data, on the grid named or on the grid that asset
+    itself sits on -/
+theorem setupSubSt_eq (env : Env) (s : PyState) (a i : Nat) (arg : Option Nat) (hI : Inv env s) :
+    (setupSubSt current env s a i arg).2 = setupPure env (ownPtrs s) (.setupSub a i arg) := by
+  have hIa := hI a
+  simp only [setupSubSt, setupPure, ownPtrs]
+  cases hb : (s.assets a).sub[i]? with
+  | none => simp [get_none_of_win hIa hb]
+  | some b =>
+    cases hq : (env.asset a).subs[i]? with
+    | none => rfl
+    | some q =>
+      obtain ⟨h1, h2⟩ := win_of_get hIa hb hq
+      cases arg with
+      | some g => simp [buildPlain_arg, Except.map, h1, h2]
+      | none =>
+        cases hg : b.grid with
+        | none => simp [current, hg, buildPlain_none_none, Except.map]
+        | some g => simp [current, hg, buildPlain_rederive_some, Except.map, h1, h2]
 
 theorem inv_init (env : Env) : Inv env (init env) := by
   intro a
   simp [init, subInit, win, pwin, List.map_map, Function.comp_def]
 
-theorem setupSt_inv (rd : Bool) (env : Env) (s : PyState) (c : Call) (hI : Inv env s) : Inv env (setupSt rd env s c).1 := by
+theorem setupSt_inv (v : Version) (env : Env) (s : PyState) (c : Call) (hI : Inv env s) : Inv env (setupSt v env s c).1 := by
   cases c with
-  | setTimegrid a g =>
-    intro i
-    by_cases hi : i = a
-    · subst hi; simpa [setupSt] using hI i
-    · simpa [setupSt, hi] using hI i
-  | setup a arg => exact setupAsset_inv rd env s a arg hI
-  | setupPortfolio arg => exact (setupPortfolioSt_eq rd env s arg hI).2
+  | setTimegrid a g => exact setTimegridSt_inv env s a g hI
+  | setup a arg => exact setupAsset_inv v env s a arg hI
+  | setupSub a i arg => exact setupSubSt_inv v env s a i arg hI
+  | setupPortfolio arg => exact (setupPortfolioSt_eq v env s arg hI).2
+  | setupSplit g tmp =>
+    have h := setupIntervals_eq v env tmp s hI
+    simp only [setupSt]
+    rcases hsi : setupIntervals v env s tmp with ⟨s1, r⟩
+    rw [hsi] at h
+    cases r with
+    | error e => exact h.2
+    | ok us => exact restoreTop_inv env g _ _ h.2
   | dcf a => exact hI
   | fillLevel a =>
     simp only [setupSt]
@@ -256,11 +346,105 @@ theorem setupSt_inv (rd : Bool) (env : Env) (s : PyState) (c : Call) (hI : Inv e
     | some g => exact hI
   | makeSlp g t =>
     have hI1 : Inv env { s with grids := writeRestricted (writeRestricted s.grids g (some t, none, none)) g (none, some t, none) } := hI
-    exact (setupPortfolioSt_eq rd env _ (some g) hI1).2
+    exact (setupPortfolioSt_eq v env _ (some g) hI1).2
 
-theorem run_inv (rd : Bool) (env : Env) : ∀ (calls : List Call) (s : PyState), Inv env s → Inv env (run rd env s calls)
+theorem run_inv (v : Version) (env : Env) : ∀ (calls : List Call) (s : PyState), Inv env s → Inv env (run v env s calls)
   | [], _, hI => hI
-  | c :: cs, s, hI => run_inv rd env cs _ (setupSt_inv rd env s c hI)
+  | c :: cs, s, hI => run_inv v env cs _ (setupSt_inv v env s c hI)
+
+/-! ### where the grid attributes point after a portfolio set-up -/
+
+/-- asset `a` and everything it wraps sit on grid object `g` -/
+def On (s : PyState) (g a : Nat) : Prop :=
+  (s.assets a).grid = some g ∧ ∀ b ∈ (s.assets a).sub, b.grid = some g
+
+theorem structuredBody_grids (rd : Bool) (G0 : Grids) (g : Nat) (p : Params) (inner : List Params) (sub : List SubSt) :
+    ∀ b ∈ (structuredBody rd G0 g p inner sub).2.1, b.grid = some g := by
+  obtain ⟨G', hG⟩ := buildInner_eq rd g
+    (((sub.zip inner).map (fun sq =>
+        (({ grid := some g, start := clipStart sq.1.start p.start, stop := clipStop sq.1.stop p.stop } : SubSt), sq.2)))
+      |>.foldl (fun G sq => writeSlots G g sq.1.start sq.1.stop sq.2.freq sq.2.wacc) G0)
+    ((sub.zip inner).map (fun sq =>
+        (({ grid := some g, start := clipStart sq.1.start p.start, stop := clipStop sq.1.stop p.stop } : SubSt), sq.2)))
+  intro b hb
+  simp only [structuredBody, hG, List.mem_map] at hb
+  obtain ⟨so, hso, rfl⟩ := hb
+  have h1 := (List.of_mem_zip hso).1
+  simp only [List.mem_map] at h1
+  obtain ⟨sq, _, hsq⟩ := h1
+  simp [← hsq]
+
+theorem setupAsset_arg_on (v : Version) (env : Env) (s : PyState) (a g : Nat) (hI : Inv env s) :
+    On (setupAsset v env s a (some g)).1 g a
+      ∧ (∀ i, i ≠ a → (setupAsset v env s a (some g)).1.assets i = s.assets i)
+      ∧ (setupAsset v env s a (some g)).1.pf = s.pf := by
+  cases h : env.asset a with
+  | plain p =>
+    have hsub : (s.assets a).sub = [] := by
+      have := hI a
+      rw [h] at this
+      simpa [Asset.subs] using this
+    refine ⟨⟨by simp [setupAsset, h, buildPlain_arg], ?_⟩, ?_, by simp [setupAsset, h, buildPlain_arg]⟩
+    · intro b hb
+      simp [setupAsset, h, buildPlain_arg, hsub] at hb
+    · intro i hi
+      simp [setupAsset, h, buildPlain_arg, hi]
+  | scaled p base =>
+    obtain ⟨x, hx, _, _⟩ := scaled_sub hI h
+    refine ⟨⟨by simp [setupAsset, h, hx, buildPlain_arg], ?_⟩, ?_, by simp [setupAsset, h, hx, buildPlain_arg]⟩
+    · intro b hb
+      simp [setupAsset, h, hx, buildPlain_arg] at hb
+      simp [hb]
+    · intro i hi
+      simp [setupAsset, h, hx, buildPlain_arg, hi]
+  | structured p inner =>
+    have hg := structuredBody_grids v.rederive (writeSlots s.grids g p.start p.stop p.freq p.wacc) g p inner (s.assets a).sub
+    rcases hb : structuredBody v.rederive (writeSlots s.grids g p.start p.stop p.freq p.wacc) g p inner (s.assets a).sub with ⟨G2, sub', r⟩
+    rw [hb] at hg
+    refine ⟨⟨by simp [setupAsset, h, hb], ?_⟩, ?_, by simp [setupAsset, h, hb]⟩
+    · intro b hbm
+      simp only [setupAsset, h, hb, if_true] at hbm
+      exact hg b hbm
+    · intro i hi
+      simp [setupAsset, h, hb, hi]
+
+theorem setupAll_on (v : Version) (env : Env) (g : Nat) :
+    ∀ (l : List Nat) (s : PyState), Inv env s →
+      (setupAll v env g s l).1.pf = s.pf ∧ ∀ a, (a ∈ l ∨ On s g a) → On (setupAll v env g s l).1 g a
+  | [], s, _ => by
+    refine ⟨rfl, fun a h => ?_⟩
+    rcases h with h | h
+    · simp at h
+    · exact h
+  | x :: rest, s, hI => by
+    have h1 := setupAsset_arg v env s x g hI
+    have h2 := setupAsset_inv v env s x (some g) hI
+    have h3 := setupAsset_arg_on v env s x g hI
+    rcases hsa : setupAsset v env s x (some g) with ⟨s1, r1⟩
+    rw [hsa] at h1 h2 h3
+    simp only at h1 h2 h3
+    subst h1
+    have ih := setupAll_on v env g rest s1 h2
+    have he := (setupAll_eq v env g rest s1 h2).1
+    rcases hsr : setupAll v env g s1 rest with ⟨s2, r2⟩
+    rw [hsr] at ih he
+    simp only at ih he
+    subst he
+    simp only [setupAll, hsa, hsr]
+    refine ⟨ih.1.trans h3.2.2, ?_⟩
+    intro a ha
+    apply ih.2
+    by_cases hax : a = x
+    · subst hax; exact Or.inr h3.1
+    · rcases ha with ha | ha
+      · simp only [List.mem_cons] at ha
+        rcases ha with ha | ha
+        · exact absurd ha hax
+        · exact Or.inl ha
+      · right
+        unfold On
+        rw [h3.2.1 a hax]
+        exact ha
 
 /-! ### interval data -/
 
@@ -270,11 +454,5 @@ theorem map_some_getD : ∀ (es : List (Option Int)), es.all Option.isSome = tru
   | some x :: es, h => by
     simp only [List.all_cons, Option.isSome_some, Bool.true_and] at h
     simp [map_some_getD es h]
-
-theorem map_id_match (es : List (Option Int)) :
-    es.map (fun e => match e with | some x => some x | none => (none : Option Int)) = es := by
-  induction es with
-  | nil => rfl
-  | cons e es ih => cases e <;> simp [ih]
 
 end EAO.State
